@@ -114,7 +114,7 @@ def rule_unallowed_arm(ctx, prog, an, rule):
         if v["name"] != "UnallowedVersion":
             continue
         tgt = variant_target(t, v["vi"])
-        r = body.reachable(tgt)
+        r = body.reachable_cp(tgt)
         ctx.ob(rule, body.path, "UnallowedVersion-arm-adds-no-element", not (r & errs) and not (r & pushes),
                "blocks reachable from the UnallowedVersion arm that build an Error or push: %s" % sorted((r & errs) | (r & pushes)),
                site=body.line(tgt))
@@ -156,8 +156,9 @@ def run(ctx, env):
         why = "Error payload is not a NetflowPacketError aggregate: %s" % canon(pe)
         if pe[0] == "agg" and pe[1].endswith("NetflowPacketError") and "remaining" in pe[4]:
             rem = peel(pe[3][pe[4].index("remaining")])
-            if rem[0] == "call" and rem[2] is not None and rem[2].is_(*TO_VEC):
-                src = peel(rem[3][0])
+            cpy = is_copy_of_slice(rem)
+            if cpy is not None:
+                src = peel(cpy)
                 # the dispatcher call(s) that can reach this block
                 cands = [(blk, t, c) for blk, t, c in pcs if body.reaches(blk, b)]
                 oks = []
@@ -183,7 +184,7 @@ def run(ctx, env):
             if v["name"] == "UnallowedVersion":
                 continue
             # every path from tgt to return passes an Error block
-            r = body.reachable(tgt, without_blocks=errblocks)
+            r = body.reachable_cp(tgt, without_blocks=errblocks)
             rets = [x for x in r if body.term(x)["k"] == "return"]
             ctx.ob("R2.3", body.path, "variant:%s-yields-Error" % v["name"], not rets and tgt != t["otherwise"] or (not rets),
                    "a path from the %s arm reaches return without building an Error element" % v["name"] if rets else "all paths build an Error",
@@ -261,7 +262,8 @@ def classify_cond(an, body, e):
 
 
 def wrappers_rule(ctx, prog, an):
-    """R2.2/R2.5 on the four version wrappers (X::Parser::parse)."""
+    """R2.2/R2.5 on the four version wrappers (X::Parser::parse).  Evaluated on the helper-inlined return value, so a
+    private constructor / error-builder helper may be extracted or inlined freely."""
     inner = {5: ("static_versions::v5::V5", "V5"), 7: ("static_versions::v7::V7", "V7"),
              9: ("variable_versions::v9::V9", "V9"), 10: ("variable_versions::ipfix::IPFix", "IPFix")}
     n = 0
@@ -269,53 +271,41 @@ def wrappers_rule(ctx, prog, an):
         b = prog.body(path)
         if not ctx.anchor("R2.5", path, b):
             continue
-        ret = an.local(b, 0)
-        okv = an.interp._through("ok", ret)
-        okv = peel(okv)
+        ret = an.localx(b, 0)
+        okv = peel(an.expand(an.interp._through("ok", ret)))
         good = False
-        why = "Ok value of the wrapper is not ParsedNetflow::new(remainder, packet): %s" % canon(okv)[:400]
+        why = "Ok value of the wrapper is not ParsedNetflow{remaining: copy(parser remainder), result: packet}: %s" % canon(okv)[:400]
         parse_call = None
-        if okv[0] == "call" and okv[2] is not None and okv[2].path == "ParsedNetflow::new":
-            rem = peel(okv[3][0])
-            pkt = peel(okv[3][1])
-            if rem[0] == "tfield" and rem[2] == 0 and rem[1][0] == "ok" and rem[1][1][0] == "call":
-                parse_call = rem[1][1]
+        if okv[0] == "agg" and okv[1] == "ParsedNetflow":
+            f = dict(zip(okv[4], okv[3]))
+            cp = is_copy_of_slice(f.get("remaining", ("opaque", "")))
+            rem = peel(cp) if cp is not None else ("opaque", "remaining is not a copy of a slice")
+            pkt = peel(f.get("result", ("opaque", "")))
+            if rem[0] == "tfield" and rem[2] == 0 and rem[1][0] == "ok" and peel(rem[1][1])[0] == "call":
+                parse_call = peel(rem[1][1])
                 c = parse_call[2]
-                is_top = c is not None and c.local and ("%s::parse" % inner[ver][0] in c.path or c.path.endswith(inner[ver][0] + " as nom_derive::Parse<&'nom [u8]>>::parse"))
+                is_top = c is not None and c.local and ("%s::parse" % inner[ver][0] in c.path or ("<%s as nom_derive::Parse" % inner[ver][0]) in c.path)
                 a0 = peel(parse_call[3][0])
                 pk_ok = pkt[0] == "agg" and pkt[1] == "NetflowPacket" and pkt[2] == inner[ver][1] and canon(peel(pkt[3][0])) == canon(("tfield", rem[1], 1))
                 good = bool(is_top and a0[0] == "arg" and pk_ok)
-                why = "Ok = ParsedNetflow::new(%s, %s)" % (canon(rem)[:200], canon(pkt)[:200])
+                why = "Ok = ParsedNetflow{remaining: copy(%s), result: %s}" % (canon(rem)[:160], canon(pkt)[:160])
         n += 1
         ctx.ob("R2.5", path, "tail-is-parser-remainder", good, why, site=site(b.span))
         # Err side
-        errv = peel(an.interp._through("err", ret))
+        errv = peel(an.expand(an.interp._through("err", ret)))
         good = False
         why = "Err value of the wrapper is not Partial(PartialParse{..}): %s" % canon(errv)[:400]
         if errv[0] == "agg" and errv[2] == "Partial":
             pp = peel(errv[3][0])
             if pp[0] == "agg" and pp[1].endswith("PartialParse"):
                 f = dict(zip(pp[4], pp[3]))
-                rem = peel(f.get("remaining", ("opaque", "")))
-                vv = peel(f.get("version", ("opaque", "")))
-                tv = rem[0] == "call" and rem[2] is not None and rem[2].is_(*TO_VEC)
-                src = peel(rem[3][0]) if tv else None
+                cp = is_copy_of_slice(f.get("remaining", ("opaque", "")))
+                vv = const_eval(peel(f.get("version", ("opaque", ""))))
+                src = peel(cp) if cp is not None else None
                 same = parse_call is not None and src is not None and canon(src) == canon(peel(parse_call[3][0]))
-                good = bool(tv and same and vv == ("const", ver, "u16"))
-                why = "PartialParse{version=%s, remaining=%s}; parser input=%s" % (canon(vv), canon(rem)[:160], canon(peel(parse_call[3][0])) if parse_call else "?")
+                good = bool(cp is not None and same and vv == {ver})
+                why = "PartialParse{version=%s, remaining=copy(%s)}; parser input=%s" % (vv, canon(src)[:120] if src else "?", canon(peel(parse_call[3][0]))[:120] if parse_call else "?")
         ctx.ob("R2.2", path, "partial-carries-original-bytes", good, why, site=site(b.span))
-    # ParsedNetflow::new keeps its arguments
-    b = prog.body("ParsedNetflow::new")
-    if ctx.anchor("R2.5", "ParsedNetflow::new", b):
-        ret = peel(an.local(b, 0))
-        ok = False
-        why = canon(ret)[:300]
-        if ret[0] == "agg" and ret[1] == "ParsedNetflow":
-            f = dict(zip(ret[4], ret[3]))
-            rem = peel(f.get("remaining", ("opaque", "")))
-            res = peel(f.get("result", ("opaque", "")))
-            ok = rem[0] == "call" and rem[2] is not None and rem[2].is_(*TO_VEC) and peel(rem[3][0]) == ("arg", 1) and res == ("arg", 2)
-        ctx.ob("R2.5", "ParsedNetflow::new", "stores-arguments-unchanged", ok, why, site=site(b.span))
     ctx.floor("R2.5", "wrappers", "version wrappers", n, 4)
 
 
